@@ -185,7 +185,7 @@ fn analysis_items() -> Vec<Item> {
         spec.exception = Some(ExcSpec { tid: 1, has_ctx: true, ctx_ok: true, ctx_ip: 0x400150, ctx_sp: 0x10008, code: 0xC000_0005, flags: 0, address: 0x400150, nparams: 2, info, ctx_patch: patch });
         v.push(Item { name: format!("analysis-bitflip-{}regs", nregs), cpu: "amd64".into(), dump: build(&spec), symbols: HashMap::new(), corrupted: false });
     }
-    // (1b) the dump header has no time stamp (the frozen writer leaves it 0) but the process start time is known: anything
+    // (1b) the dump header has no time stamp (zeroed here) but the process start time is known: anything
     //      derived from "the time of the crash" must come from the dump, not from the clock.  The name asks the determinism
     //      recorder to let a second pass before the last run.
     {
@@ -194,7 +194,9 @@ fn analysis_items() -> Vec<Item> {
         spec.modules = vec![ModuleSpec { base: 0x400000, size: 0x1000, name: "m1".into() }];
         spec.misc_pid = Some(Some(77));
         spec.misc_create_time = Some(1_600_000_000);
-        v.push(Item { name: "analysis-clock-sleep".into(), cpu: "amd64".into(), dump: build(&spec), symbols: HashMap::new(), corrupted: false });
+        let mut dump = build(&spec);
+        for b in &mut dump[20..24] { *b = 0; } // MINIDUMP_HEADER.time_date_stamp
+        v.push(Item { name: "analysis-clock-sleep".into(), cpu: "amd64".into(), dump, symbols: HashMap::new(), corrupted: false });
     }
     // (2) Linux amd64 crash on a memory access, no memory-info stream, /proc/maps rows incl. one that spans everything
     for maps in ["0-ffffffffffffffff rw-p 00000000 00:00 0\n", "00000000-ffffffffffffffff ---p 00000000 00:00 0 [everything]\n00010000-00018000 rw-p 00000000 00:00 0 [stack]\n",
